@@ -33,8 +33,6 @@ Definition child_key (par : pref) (k : pstr) : pref :=
 Definition child_idx (par : pref) (i : nat) : pref :=
   match par with PAt p => PAt (p ++ [PIdx i]) | PWrap inner => inner end.
 
-Definition br (s : pstr) : pstr := c_lb :: s ++ [c_rb].
-Definition sl (a b : pstr) : pstr := a ++ c_slash :: b.
 
 (* Python list indexing with an int: position or None (IndexError) *)
 Definition norm_idx (len : nat) (z : Z) : option nat :=
@@ -458,7 +456,9 @@ Definition funnelled (e : exn) : bool :=
 (* result of a lookup: the tree afterwards and the value / default / exception *)
 Inductive lres := LVal (v : tree) | LDefault | LEmpty (* '' from the ? prefix *) | LRaise (e : exn).
 
-Definition fuel_for (root : tree) (x : pstr) : nat := 8 * length x + 64.
+(* enough for every case the correspondence check generates (the resolver re-enters from the
+   root for '..' and new()); the theorems only need the last summand *)
+Definition fuel_for (root : tree) (x : pstr) : nat := 8 * length x + 64 + 2 * length (tokenize x).
 
 (* n0dict__._get, after the '?' prefix has been processed *)
 Definition dict_get_core (fuel : nat) (root : tree) (x : pstr) (raise_exc rl : bool) (dflt : lres) : res (tree * lres) :=
